@@ -317,7 +317,21 @@ VDRIVE_OP(sim)
 			SimParam sp;
 			sp.SetRelation(dir ? SimParam::e_sim_relation::TA_UPWARD : SimParam::e_sim_relation::TA_DOWNWARD);
 			sp.SetNumStates(n);
-			AutBase::StateDiscontBinaryRelation rel = a.ComputeSimulation(sp);
+			AutBase::StateDiscontBinaryRelation rel0 = a.ComputeSimulation(sp);
+			// "relcopy": the relation is read through a COPY whose source variable has been re-used for the relation of
+			// another automaton (a copy must be self-contained); "amode" copies do not matter here
+			AutBase::StateDiscontBinaryRelation rel(rel0);
+			if (c.value("relcopy", false))
+			{
+				TA other;
+				other.SetAlphabet(a.GetAlphabet());
+				for (const TA::Transition& t : a) { if (t.GetChildren().empty()) { other.AddTransition(TA::StateTuple(), t.GetSymbol(), 7); break; } }
+				other.SetStateFinal(7);
+				SimParam sp2;
+				sp2.SetRelation(SimParam::e_sim_relation::TA_DOWNWARD);
+				sp2.SetNumStates(1);
+				rel0 = other.ComputeSimulation(sp2);
+			}
 			json m = json::array();
 			for (size_t q = 0; q < n; ++q)
 			{
